@@ -106,6 +106,22 @@ fn drive_shared(mut it: Iter<'_, Tracked>, sel: &[Obs], script: &[Step]) -> R<()
                 }
             }
             Step::Skip(_) | Step::StepBy(_) => {}
+            Step::FindMid | Step::RFindMid => {
+                if lo < hi {
+                    let mid = lo + (hi - lo) / 2;
+                    let target = sel[mid].id;
+                    let front = matches!(st, Step::FindMid);
+                    let got = if front { it.position(|t| t.peek_id().ok() == Some(target)) } else { it.rposition(|t| t.peek_id().ok() == Some(target)) };
+                    if got != Some(mid - lo) {
+                        return Err(format!("{}(middle element) returned {:?}, expected {:?}", if front { "position" } else { "rposition" }, got, Some(mid - lo)));
+                    }
+                    if front {
+                        lo = mid + 1
+                    } else {
+                        hi = mid
+                    }
+                }
+            }
             Step::Search => {
                 let rem = &sel[lo..hi];
                 let n = rem.len();
@@ -344,6 +360,22 @@ fn drive_mut(mut it: IterMut<'_, Tracked>, sel: &[Obs], script: &[Step], mut new
                 }
                 return Ok(writes);
             }
+            Step::FindMid | Step::RFindMid => {
+                if lo < hi {
+                    let mid = lo + (hi - lo) / 2;
+                    let target = sel[mid].addr;
+                    let front = matches!(st, Step::FindMid);
+                    let got = if front { it.position(|t| t as *mut Tracked as usize == target) } else { it.rposition(|t| t as *mut Tracked as usize == target) };
+                    if got != Some(mid - lo) {
+                        return Err(format!("{}(middle element) on the mutable iterator returned {:?}, expected {:?}", if front { "position" } else { "rposition" }, got, Some(mid - lo)));
+                    }
+                    if front {
+                        lo = mid + 1
+                    } else {
+                        hi = mid
+                    }
+                }
+            }
             Step::Fork | Step::Skip(_) | Step::StepBy(_) | Step::Search => {}
         }
     }
@@ -553,6 +585,23 @@ impl St {
                             debug_touches_only("the owning iterator", &rem, || it.debug_string())?;
                         }
                         Step::Search => {}
+                        Step::FindMid | Step::RFindMid => {
+                            if lo < hi {
+                                let mid = lo + (hi - lo) / 2;
+                                let target = before[mid].0;
+                                let front = matches!(st, Step::FindMid);
+                                let mut f = |t: &Tracked| t.raw_id() == target;
+                                let g = if front { it.position_dyn(&mut f) } else { it.rposition_dyn(&mut f) };
+                                if g != Some(mid - lo) {
+                                    return Err(format!("{}(middle element) on the owning iterator returned {:?}, expected {:?}", if front { "position" } else { "rposition" }, g, Some(mid - lo)));
+                                }
+                                if front {
+                                    lo = mid + 1
+                                } else {
+                                    hi = mid
+                                }
+                            }
+                        }
                         Step::Count | Step::Fold | Step::Last | Step::RevCollect | Step::Skip(_) | Step::StepBy(_) | Step::RFold | Step::RevLast => {
                             let all: Vec<u32> = before[lo..hi].iter().map(|m| m.0).collect();
                             let (v, want): (Vec<Tracked>, Vec<u32>) = match st {
